@@ -39,7 +39,7 @@ var propertyConfigs = map[string]*propertyConfig{
 	"C03": {
 		ID: "C03", Packages: []string{"./..."}, Level: "proof",
 		Explain: "Abstract contracts (afunc blocks in core/rlwe/zz_contracts_verif.go) on secret-key encryption of zero (both the Q and the QP variant, every NTT flag and degree case), its dispatcher for *Ciphertext, public-key encryption without P, and Decrypt (degree 1 and 2): " +
-			"c0 + c1*s equals exactly one fresh draw of the declared error distribution, public-key encryption adds two distinct error draws and one secret draw, decryption computes c0 + c1*s (+ c2*s^2) and copies the metadata.",
+			"c0 + c1*s equals exactly one fresh draw of the declared error distribution, public-key encryption adds two distinct error draws and one secret draw, decryption computes c0 + c1*s (+ c2*s^2) and copies the metadata.  The zero encryption is in Montgomery form exactly when the receiver's metadata say so, on the secret-key path and on the public-key path without P (finding F47).",
 		Assumptions: engineBAssumptions, Trusted: stdTrusted,
 	},
 	"C05": {
@@ -69,7 +69,8 @@ var propertyConfigs = map[string]*propertyConfig{
 	"C20": {
 		ID: "C20", Packages: []string{"./..."}, Level: "proof",
 		Explain: "Per-call structure of the RGSW operations.  rgsw.Evaluator.ExternalProduct, in place and out of place, with no, one and two auxiliary moduli: the two inner products with the gadget rows that were computed (NAMED uf_ep0q/p, uf_ep1q/p: functions of the two components of the input and of the RGSW ciphertext) are the ones handed to the division by P (NAMED uf_moddown), and the quotients are what the receiver holds (finding F45: out of place with two P the Q part came from the receiver's old contents).  " +
-			"BOUNDED instances (one ragged gadget shape, loops unwound; reported under coverage.bounded, never counted as proved): AddLazy (ciphertext operand), MulByXPowAlphaMinusOneLazy, MulByXPowAlphaMinusOneThenAddLazy and Reduce act component by component on both gadget matrices and both bases - 24 ring identities each (\"RGSW ciphertexts add and multiply by X^a - 1 as their plaintexts do\").",
+			"BOUNDED instances (one ragged gadget shape, loops unwound; reported under coverage.bounded, never counted as proved): AddLazy (ciphertext operand), MulByXPowAlphaMinusOneLazy, MulByXPowAlphaMinusOneThenAddLazy and Reduce act component by component on both gadget matrices and both bases - 24 ring identities each (\"RGSW ciphertexts add and multiply by X^a - 1 as their plaintexts do\").  " +
+			"rgsw.Encryptor.Encrypt (four domain / Montgomery cases of the plaintext): the plaintext is read, never written (finding F48), and the gadget product is handed a plaintext in NTT and Montgomery form; EncryptZero forwards a receiver that is not an RGSW ciphertext as it is (finding F49).",
 		Assumptions: append(append([]string{}, engineBAssumptions...), "the inner products of the external product (externalProductInPlaceSinglePAndBitDecomp, externalProductInPlaceMultipleP) and the division by P (ModDownQPtoQNTT) are TRUSTED leaves that write their outputs only; what they compute is named, not interpreted (their digit arithmetic is under the contracts of C02)",
 			"NOT decided: that the external product decrypts to m*g, every noise bound, the 32-bit fast path, RGSW encryption, blind rotation (accumulator loop, test polynomial, key generation), plaintext operands of AddLazy"),
 		Trusted:     stdTrusted, Simple: copyAndLanes("C20"),
@@ -78,7 +79,8 @@ var propertyConfigs = map[string]*propertyConfig{
 		ID: "C04", Packages: []string{"./..."}, Level: "proof",
 		Explain: "Per-call structure of key switching (one call, same ring degree).  rlwe.Evaluator.ApplyEvaluationKey, in place and out of place: the output is (c0 + gp0, gp1) where (gp0, gp1) is the gadget product of the input's SECOND component with the given key (NAMED uf_gp0 / uf_gp1: functions of the ring element and of the gadget ciphertext), and carries the input's flags and scale.  " +
 			"Relinearize (receiver of degree 1 or 2, or the input): (c0 + gp0, c1 + gp1) with the gadget product of the THIRD component and the relinearisation key of the key set (NAMED uf_rlk), degree 1.  " +
-			"Automorphism (coefficient domain): the automorphism (NAMED uf_autom) of both components of the key switch with the Galois key of the element (NAMED uf_gk); CheckAndGetGaloisKey hands out that key.",
+			"Automorphism (coefficient domain): the automorphism (NAMED uf_autom) of both components of the key switch with the Galois key of the element (NAMED uf_gk); CheckAndGetGaloisKey hands out that key.  Every one of them leaves the output at the COMMON level of input and receiver (finding F46; Element.Resize carries the number of rows).  " +
+			"Typed-AST engine: rlwe.Parameters.BaseTwoDecompositionVectorSize gives every modulus enough power-of-two digits to cover its bit length, base[k] * w >= bitlen(q_k) (finding F50; Lean lemma div_ceil).",
 		Assumptions: append(append([]string{}, engineBAssumptions...), "the gadget product, the automorphism of a ring element and the key-set accessors are TRUSTED leaves that write their outputs only; what they compute is named, not interpreted (digit arithmetic: contracts of C02; automorphism tables: C01 / C11)",
 			"NOT decided: that the result decrypts to the transformed plaintext, every noise bound, switching between ring degrees, the NTT branch of Automorphism, the hoisted and lazy variants, extract / repack, compressed keys"),
 		Trusted:     stdTrusted, Simple: copyAndLanes("C04"),
